@@ -727,3 +727,12 @@ def _detector_ctors(u: Unit):
 
 
 unit("C13", "ctor.detectors")(_detector_ctors)      # a new detector holds one empty container of each kind on its own geometry
+
+
+def _pixel_reset_ieee(u: Unit):
+    """C02.pixel_reset_ieee (imported late)"""
+    from . import C02 as _C02
+    return _C02.pixel_reset_ieee(u)
+
+
+unit("C13", "empty.pixel_reset_ieee")(_pixel_reset_ieee)      # a reset pixel bucket holds zeros whatever it held before (nothing of the old frame survives, NaN included)
